@@ -295,16 +295,22 @@ where
         Sqx: Data<Elem = Sd::Elem>,
         Sqy: Data<Elem = Sd::Elem>,
     {
-        Zip::from(xs)
-            .and(ys)
-            .and(buffer.axis_iter_mut(Axis(0)))
-            .fold_while(Ok(()), |_, &x, &y, buf| {
-                match self.strategy.interp_into(self, buf, x, y) {
-                    Ok(_) => ndarray::FoldWhile::Continue(Ok(())),
-                    Err(e) => ndarray::FoldWhile::Done(Err(e)),
-                }
-            })
-            .into_inner()
+        // the lanes of the buffer are checked by the strategy, one query at a time.
+        // For an empty query that never happens, so the lane shape is checked here as well
+        let lanes_match = buffer.shape()[1..] == self.data.shape()[2..];
+        let zip = Zip::from(xs).and(ys).and(buffer.axis_iter_mut(Axis(0)));
+        assert!(
+            lanes_match,
+            "the buffer has the wrong shape. expected lanes: {:?}",
+            &self.data.shape()[2..]
+        );
+        zip.fold_while(Ok(()), |_, &x, &y, buf| {
+            match self.strategy.interp_into(self, buf, x, y) {
+                Ok(_) => ndarray::FoldWhile::Continue(Ok(())),
+                Err(e) => ndarray::FoldWhile::Done(Err(e)),
+            }
+        })
+        .into_inner()
     }
 
     /// the required shape of the buffer when calling [`interp_array_into`]
